@@ -42,6 +42,14 @@ JLS_CPP_GUARD_START
 
 #define JLS_BUF_DEFAULT_SIZE (1 << 20)   // 1 MiB
 #define JLS_BUF_STRING_SIZE (1 << 20)    // 1 MiB
+#if defined(JLS_VERIF) && defined(JLS_VERIF_BUF_DEFAULT_SIZE)
+#undef JLS_BUF_DEFAULT_SIZE
+#define JLS_BUF_DEFAULT_SIZE (JLS_VERIF_BUF_DEFAULT_SIZE)
+#endif
+#if defined(JLS_VERIF) && defined(JLS_VERIF_BUF_STRING_SIZE)
+#undef JLS_BUF_STRING_SIZE
+#define JLS_BUF_STRING_SIZE (JLS_VERIF_BUF_STRING_SIZE)
+#endif
 
 /**
  * @brief Efficient storage of constant strings.
